@@ -223,6 +223,21 @@ package builder
 //@   loop 0 invariant nestedfailure(nil) == old(nestedfailure(nil))
 //@   ensures nested-failures-are-reported: nestedfailure(nil) > old(nestedfailure(nil)) ==> r0 != nil
 
+// The input root laid out on a real file system is exactly the requested
+// tree: a child directory is only entered after it has been newly created, so
+// a Directory message that names the same child twice surfaces as an error
+// instead of being merged into a different tree (C17).
+// mkdirfailures(nil): failed Mkdir calls of this call.
+//@ ghost map mkdirfailures(ref) int zero
+//@ func (*naiveBuildDirectory).mergeDirectoryContents
+//@   props C17
+//@   at call Mkdir#1 ghostset mkdirfailures[nil] = mkdirfailures(nil) + ite(r0 != nil, 1, 0)
+//@   loop 0 invariant mkdirfailures(nil) == old(mkdirfailures(nil))
+//@   loop 1 invariant mkdirfailures(nil) == old(mkdirfailures(nil))
+//@   loop 2 invariant mkdirfailures(nil) == old(mkdirfailures(nil))
+//@   at call EnterDirectory#1 assert only-newly-created-directories-are-entered: mkdirfailures(nil) == old(mkdirfailures(nil))
+//@   ensures a-child-that-cannot-be-created-fails-the-merge: mkdirfailures(nil) > old(mkdirfailures(nil)) ==> r0 != nil
+
 // The deadline until which the scheduler may believe this worker is executing
 // counts from the time the scheduler expects the next synchronization, not
 // from the local clock: one minute past that the scheduler has purged the
